@@ -1574,9 +1574,19 @@ package asm
 //@   at invoke:Write:1 assert int(line.asmLineType) <= 5 ==> xb[24] == 47 && xb[25] == 47 && all(j, int, 6*line.byteCount-1 <= j && j < 24 ==> xb[j] == 32)
 //@   at invoke:Write:1 assert int(line.asmLineType) == 7 ==> len(xb) == 6*line.byteCount
 
+// WriteTextTo: one Write per record. A base record shows its address; a data record shows the address of its first
+// byte; an instruction record (without an undefined-label warning) ends with "; $AAAAAA  b0 b1 ..": the address of
+// its first byte and exactly its bytes code[off : off+byteCount].
 //@ func (*Emitter).WriteTextTo
 //@   property C15
 //@   requires TILES(a)
 //@   assigns nothing
 //@   loop 1 invariant true
 //@   loop 1 modifies line
+//@   at invoke:Write:1 assert line == a.lines[rangeindex1+1] && len(xb) >= 1 && xb[len(xb)-1] == 10
+//@   at invoke:Write:1 assert int(line.asmLineType) == 6 ==> xb[5] == 36 && xb[6] == hextable[line.address>>20&15] && xb[6+1] == hextable[line.address>>16&15] && xb[6+2] == hextable[line.address>>12&15] && xb[6+3] == hextable[line.address>>8&15] && xb[6+4] == hextable[line.address>>4&15] && xb[6+5] == hextable[line.address>>0&15]
+//@   at invoke:Write:1 assert int(line.asmLineType) == 7 ==> xb[6] == 36 && xb[7] == hextable[line.address>>20&15] && xb[7+1] == hextable[line.address>>16&15] && xb[7+2] == hextable[line.address>>12&15] && xb[7+3] == hextable[line.address>>8&15] && xb[7+4] == hextable[line.address>>4&15] && xb[7+5] == hextable[line.address>>0&15] && xb[13] == 10
+//@   at invoke:Write:1 assert int(line.asmLineType) == 0 ==> len(xb) >= 15 && xb[len(xb)-3-11] == 59 && xb[len(xb)-3-9] == 36 && xb[len(xb)-3-8] == hextable[line.address>>20&15] && xb[len(xb)-3-8+1] == hextable[line.address>>16&15] && xb[len(xb)-3-8+2] == hextable[line.address>>12&15] && xb[len(xb)-3-8+3] == hextable[line.address>>8&15] && xb[len(xb)-3-8+4] == hextable[line.address>>4&15] && xb[len(xb)-3-8+5] == hextable[line.address>>0&15] && xb[len(xb)-3-2] == 32 && xb[len(xb)-3-1] == 32 && xb[len(xb)-3] == hextable[a.code[int(line.address-a.base)+0]>>4&15] && xb[len(xb)-3+1] == hextable[a.code[int(line.address-a.base)+0]&15]
+//@   at invoke:Write:1 assert (int(line.asmLineType) == 1 || int(line.asmLineType) == 2 && !has(a.danglingS8, line.label)) ==> len(xb) >= 18 && xb[len(xb)-6-11] == 59 && xb[len(xb)-6-9] == 36 && xb[len(xb)-6-8] == hextable[line.address>>20&15] && xb[len(xb)-6-8+1] == hextable[line.address>>16&15] && xb[len(xb)-6-8+2] == hextable[line.address>>12&15] && xb[len(xb)-6-8+3] == hextable[line.address>>8&15] && xb[len(xb)-6-8+4] == hextable[line.address>>4&15] && xb[len(xb)-6-8+5] == hextable[line.address>>0&15] && xb[len(xb)-6-2] == 32 && xb[len(xb)-6-1] == 32 && xb[len(xb)-6] == hextable[a.code[int(line.address-a.base)+0]>>4&15] && xb[len(xb)-6+1] == hextable[a.code[int(line.address-a.base)+0]&15] && xb[len(xb)-6+3] == hextable[a.code[int(line.address-a.base)+1]>>4&15] && xb[len(xb)-6+3+1] == hextable[a.code[int(line.address-a.base)+1]&15] && xb[len(xb)-6+3-1] == 32
+//@   at invoke:Write:1 assert (int(line.asmLineType) == 3 || int(line.asmLineType) == 4 && !has(a.danglingU16, line.label)) ==> len(xb) >= 21 && xb[len(xb)-9-11] == 59 && xb[len(xb)-9-9] == 36 && xb[len(xb)-9-8] == hextable[line.address>>20&15] && xb[len(xb)-9-8+1] == hextable[line.address>>16&15] && xb[len(xb)-9-8+2] == hextable[line.address>>12&15] && xb[len(xb)-9-8+3] == hextable[line.address>>8&15] && xb[len(xb)-9-8+4] == hextable[line.address>>4&15] && xb[len(xb)-9-8+5] == hextable[line.address>>0&15] && xb[len(xb)-9-2] == 32 && xb[len(xb)-9-1] == 32 && xb[len(xb)-9] == hextable[a.code[int(line.address-a.base)+0]>>4&15] && xb[len(xb)-9+1] == hextable[a.code[int(line.address-a.base)+0]&15] && xb[len(xb)-9+3] == hextable[a.code[int(line.address-a.base)+1]>>4&15] && xb[len(xb)-9+3+1] == hextable[a.code[int(line.address-a.base)+1]&15] && xb[len(xb)-9+3-1] == 32 && xb[len(xb)-9+6] == hextable[a.code[int(line.address-a.base)+2]>>4&15] && xb[len(xb)-9+6+1] == hextable[a.code[int(line.address-a.base)+2]&15] && xb[len(xb)-9+6-1] == 32
+//@   at invoke:Write:1 assert int(line.asmLineType) == 5 ==> len(xb) >= 24 && xb[len(xb)-12-11] == 59 && xb[len(xb)-12-9] == 36 && xb[len(xb)-12-8] == hextable[line.address>>20&15] && xb[len(xb)-12-8+1] == hextable[line.address>>16&15] && xb[len(xb)-12-8+2] == hextable[line.address>>12&15] && xb[len(xb)-12-8+3] == hextable[line.address>>8&15] && xb[len(xb)-12-8+4] == hextable[line.address>>4&15] && xb[len(xb)-12-8+5] == hextable[line.address>>0&15] && xb[len(xb)-12-2] == 32 && xb[len(xb)-12-1] == 32 && xb[len(xb)-12] == hextable[a.code[int(line.address-a.base)+0]>>4&15] && xb[len(xb)-12+1] == hextable[a.code[int(line.address-a.base)+0]&15] && xb[len(xb)-12+3] == hextable[a.code[int(line.address-a.base)+1]>>4&15] && xb[len(xb)-12+3+1] == hextable[a.code[int(line.address-a.base)+1]&15] && xb[len(xb)-12+3-1] == 32 && xb[len(xb)-12+6] == hextable[a.code[int(line.address-a.base)+2]>>4&15] && xb[len(xb)-12+6+1] == hextable[a.code[int(line.address-a.base)+2]&15] && xb[len(xb)-12+6-1] == 32 && xb[len(xb)-12+9] == hextable[a.code[int(line.address-a.base)+3]>>4&15] && xb[len(xb)-12+9+1] == hextable[a.code[int(line.address-a.base)+3]&15] && xb[len(xb)-12+9-1] == 32
